@@ -270,7 +270,11 @@ impl Sandbox {
                     None => true,
                 };
             if changed {
-                let data = std::fs::read(&full).unwrap_or_default();
+                // (outputs are capped by RLIMIT_FSIZE at 64 MiB; never slurp more than that)
+                let data = match std::fs::metadata(&full) {
+                    Ok(m) if m.len() > (65u64 << 20) => format!("<file of {} bytes not read>", m.len()).into_bytes(),
+                    _ => std::fs::read(&full).unwrap_or_default(),
+                };
                 self.state.insert(rel.clone(), (crate::rng::hash_bytes(&data), now));
                 o.files.insert(rel, data);
             }
